@@ -47,6 +47,17 @@ CHECKS = {
        "after every event; cpu.row names must be the model's CPU order.",
   note="Oracle lib/refemu.py; remote affinity events naming the CPU the target already occupies are not generated "
        "(not a change; behaviour unspecified by the property, see DESIGN.md)."),
+ "C03": dict(
+  cat="exploration", ref="DESIGN.md section 3, C03",
+  technique="runtime monitoring: replay-order log from unique-id marks in thread.prv and ovnidump -x, checked against merge properties; ASan+UBSan invariant harness over heap.h",
+  text="Sets of 1-12 sorted streams over 1-3 looms (clock-offset tables in the trace and via -c, many equal corrected "
+       "clocks within and across streams, equal first clocks, streams of up to 3000 events, empty streams for the dump "
+       "tools) are replayed by the real ovniemu, ovnidump and ovnitop. Unique mark ids turn thread.prv type 100 and the "
+       "dump output into ordered logs; the monitor checks permutation (no loss, no duplicate), per-stream order, "
+       "non-decreasing corrected time, Paraver time = corrected - first corrected, header duration, and byte-identical "
+       "outputs for two directory creation orders on tmpfs and ext4. heap.h is driven in-process under ASan+UBSan with "
+       "a structural walk (links, complete shape, order) after every operation.",
+  note="ovnidump applies no offsets (raw clocks checked). Tie order is left free, as in the statement."),
 }
 
 NOT_YET = "check not implemented yet in this revision (work in progress, see DESIGN.md section 3)"
